@@ -583,6 +583,8 @@ def unwrap_doc(p):
     hs = p['holes']  # dict slot -> size
     g = lambda name, cls: H(hs.get(name, 0), cls)
     tpl = []
+    if p.get('bom'):
+        tpl += ["\ufeff"]
     if p.get('pre', 1):
         tpl += [g('pre_i', 'ind'), "A", g('pre_t', 'nb'), "\n"]
     if p.get('prelude'):   # crossing elements and a stray closing tag in front: <a> <u> </a> </a>  (all unregistered names)
@@ -669,6 +671,10 @@ def c11_jobs(tier, seed):
         jobs.append(dict(harness='c11_unwrap', label=f'unwrap k={k} behind crossing elements, inside a pending element', params=dict(k=k, prelude=1, wrap=[('t', PT)], holes=dict(b0_i=2))))
         jobs.append(dict(harness='c11_unwrap', label=f'unwrap k={k + 1} wrapper lines end in four free bytes', params=dict(k=k + 1, holes={'b0_t': 4})))
         jobs.append(dict(harness='c11_unwrap', label=f'unwrap k={k + 1} closing wrapper line ends in four free bytes', params=dict(k=k + 1, holes={f'b{k}_t': 4})))
+    for k in (2, 3):   # a byte order mark in front of the document; the flag written with a value
+        jobs.append(dict(harness='c11_unwrap', label=f'unwrap k={k} behind a byte order mark', params=dict(k=k, bom=1, holes=dict(tag_i=1, b0_i=2))))
+        for av in ("unwrap-block='true'", 'unwrap-block=""'):
+            jobs.append(dict(harness='c11_unwrap', label=f'unwrap k={k} flag written {av}', params=dict(k=k, attrs=RX + ' ' + av, holes=dict(tag_i=1, b0_i=2))))
     # the unwrap element nested in skipped / pending / unregistered elements (each removes nothing on its own account)
     for wrap in ([('m', SK)], [('t', PT)], [('u', '')], [('m', SK), ('t', PT)], [('t', RT + ' skip'), ('u', "x='1'")]):
         for k in (1, 3):
@@ -883,6 +889,8 @@ def c12_doc(p):
         elif kind == 'unwrap':  # nested ready unwrap block with two inner lines
             tpl += [f(f'b{j}'), g(f'b{j}'), O('t', RT + ' unwrap-block'), "\n", f(f'b{j}'), g(f'b{j}w'), "[\n",
                     f(f'b{j}i'), g(f'b{j}i'), "M0\n", f(f'b{j}i'), g(f'b{j}k'), "M1\n", f(f'b{j}'), "]\n", f(f'b{j}'), g(f'b{j}c'), C('t'), "\n"]
+    if p.get('eof_tag'):   # the closing tag is the last thing in the file
+        return tpl + [f('w2'), g('w2'), "}\n", f('ctag'), g('ctag'), C('m')]
     tpl += [f('w2'), g('w2'), "}\n", f('ctag'), g('ctag'), C('m'), "\n"]
     for i in range(p.get('post', 1)):
         tpl += [f(f'post{i}'), g(f'post{i}'), "B%d\n" % i]
@@ -1010,6 +1018,14 @@ def c12_jobs(tier, seed):
                 J(f'dedent body={body} fixed={fname} holes={hs}', fixed=fx, holes=hs, body=body)
             if 'unwrap' in body or 'ready' in body:
                 J(f'dedent body={body} fixed={fname} removable element on the opening wrapper line', fixed=fx, holes=dict(b0=1, b2=2) if len(body) > 2 else dict(b0=1), body=body, w1_child=1)
+    for fname, fixed in (('2sp', ind2), ('nested2sp', ind_nested), ('tabs', tabs)):   # the block ends the file
+        for hs in (dict(tag=1, b0=2, b1=2), dict(b1=2, b2=1, ctag=1)):
+            J(f'dedent fixed={fname} closing tag at end of input holes={hs}', fixed=fixed, holes=hs, body=['code', 'code', 'code'], eof_tag=1)
+    for body in (['blank', 'ready', 'code'], ['code', 'ready', 'blank', 'code'], ['code', 'blank', 'ready', 'blank']):   # blanks-only lines next to a removed child
+        fx = dict(ind_nested)
+        for j in range(len(body)):
+            fx.setdefault(f'b{j}', ind_nested['b0'])
+        J(f'dedent body={body} fixed=nested2sp', fixed=fx, holes=dict(b0=1, b2=2), body=body)
     # a nested block whose tag stands far left of the enclosing block's body (ragged nesting): the enclosing block's own lines still move uniformly
     rag = dict(tag='    ', w1='    ', b0=' ' * 12, b1='    ', b1i=' ' * 8, b2=' ' * 12, w2='    ', ctag='    ')
     for hs in (dict(b1k=2), dict(b1k=4, b2=1), dict(b1i=1, b1k=3, b0=1)):
@@ -1037,18 +1053,19 @@ def c13_doc(p):
     hs = p['holes']
     g = lambda name, cls='ind': H(hs.get(name, 0), cls)
     tpl = []
-    for _ in range(int(p.get('parent', 0))):   # pending parents, each tag on its own line
-        tpl += [O('m', PN), "\n"]
+    for _ in range(int(p.get('parent', 0))):   # parents that remove nothing on their own account (pending by default), each tag on its own line
+        tpl += [O('m', p.get('parent_attrs', PN)), "\n"]
     if not p.get('first'):   # (first=1: the removed block begins on the first line of the file)
         tpl += [g('a_i'), g('a_t', 'nb'), "" if p.get('pure') else "A", g('a_e'), "\n"]
     for i in range(p['b']):
         tpl += [g(f'bl{i}'), "\n"]
-    tpl += [g('tag_i'), O('m', RX), "\n", g('c_i'), "x", g('c_t', 'nb'), "\n"]
+    mt, ma = p.get('main', ('m', RX))
+    tpl += [g('tag_i'), O(mt, ma), "\n", g('c_i'), "x", g('c_t', 'nb'), "\n"]
     if p.get('inner'):   # a ready block nested in the ready block
         tpl += [g('in_i'), O('t', RT), "\n", "w\n", g('cin_i'), C('t'), "\n", "v\n"]
     if p.get('eof_tag'):   # the document ends with the closing tag of the removed block (no line break behind it)
-        return tpl + [g('ctag_i'), C('m')]
-    tpl += [g('ctag_i'), C('m'), "\n"]
+        return tpl + [g('ctag_i'), C(mt)]
+    tpl += [g('ctag_i'), C(mt), "\n"]
     for i in range(p['a']):
         tpl += [g(f'al{i}'), "\n"]
     if p.get('second'):
@@ -1133,6 +1150,11 @@ def c13_jobs(tier, seed):
         J(f'nested ready block b={b} a={a}', a=a, b=b, inner=1, holes=dict(tag_i=1, in_i=2, cin_i=1))
         J(f'pending parent b={b} a={a}', a=a, b=b, parent=1, holes=dict(tag_i=2, a_i=2, z_i=1))
         J(f'no final newline b={b} a={a}', a=a, b=b, final_nl=0, holes=dict(z_t=2, z_i=1, al0=1 if a else 0))
+    for a, b in [(0, 0), (1, 1)]:   # parents marked skip / ready-but-skipped; a time-limited block exactly at / one second before its deadline at +09:00 and -03:30
+        J(f'skip parent b={b} a={a}', a=a, b=b, parent=1, parent_attrs=SK, holes=dict(tag_i=2, a_i=1))
+        J(f'two skip parents b={b} a={a}', a=a, b=b, parent=2, parent_attrs="to='2001-01-01 00:00:00' skip name='n'", holes=dict(tag_i=1, z_i=1))
+        for off, now in (('+09:00', 1704034800), ('-03:30', 1704079800)):
+            J(f'time-limited block at its deadline, offset {off}, b={b} a={a}', a=a, b=b, main=('t', "to='2024-01-01 00:00:00'"), cfg=dict(tl_offset=list(off.encode()), now=now), holes=dict(tag_i=1, a_i=1))
     for depth in ((300,) if tier == 'quick' else (40, 300)):   # any depth of pending-parent nesting
         J(f'block inside {depth} pending parents', a=1, b=1, parent=depth, holes=dict(tag_i=2, a_i=1))
     for hs in (dict(tag_i=2, ctag_i=2), dict(tag_i=1, c_i=2, z_i=1), dict(ctag_i=2, z_t=1)):   # the block begins on the first line of the file
